@@ -71,6 +71,7 @@ type harness struct {
 	expB   exportSet
 	obsA   []string
 	rows   int
+	big    bool
 }
 
 func (h *harness) track(n *node) *node {
@@ -151,6 +152,13 @@ func runC11(t *testing.T, r *simkit.Run) {
 	split := tp.Chance(1, 3)
 	h.page = []int{512, 1, 2, 3}[tp.Intn(4)]
 	sc := scenario(tp.Weighted([]int{5, 4, 2, 4, 2, 3}))
+	if big {
+		// WAL-sync ordinals are not reproducible across a memtable rotation: crash at importer reads instead
+		sc = scenario(tp.Weighted([]int{3, 0, 4, 1, 1, 4}))
+	}
+	h.big = big
+	tailTrim := tp.Chance(1, 3)
+	r.Config["tail_trim"] = tailTrim
 	r.Config["slot"] = h.slotA
 	r.Config["channels"] = fmt.Sprintf("%d+%d", nA, nB)
 	r.Config["msg_ops"], r.Config["meta_ops"], r.Config["big"] = msgOps, metaOps, big
@@ -168,7 +176,7 @@ func runC11(t *testing.T, r *simkit.Run) {
 		return
 	}
 	h.src = h.track(src)
-	h.b = &builder{r: r, eng: src.msg, nextID: 1000 + uint64(tp.Intn(1000)), tsBase: 1_700_000_000_000, uids: h.pools.uids}
+	h.b = &builder{r: r, eng: src.msg, nextID: 1000 + uint64(tp.Intn(1000)), tsBase: 1_700_000_000_000, uids: h.pools.uids, tailTrim: tailTrim}
 	mk := func(prefix string, i int, slot uint16) {
 		id := channel.ChannelID{ID: fmt.Sprintf("%s%d", prefix, i), Type: 2}
 		c := &chanModel{Key: fmt.Sprintf("%d:%s", id.Type, id.ID), ID: id, Slot: slot, Exact: !tp.Chance(1, 4), Epoch: 1, Term: 1, Cursors: map[string]uint64{}}
@@ -253,12 +261,14 @@ func runC11(t *testing.T, r *simkit.Run) {
 		}
 		n.close()
 	}
-	preDump, err := dumpDisk(pre.mem)
-	if err != nil {
-		r.Infra("dump pre-state: %v", err)
-		return
+	var preDump nodeDump
+	if sc == scCorrupt || sc == scIOError || sc == scNone {
+		if preDump, err = dumpDisk(pre.mem); err != nil {
+			r.Infra("dump pre-state: %v", err)
+			return
+		}
+		r.Logf("pre-state msg=%s/%d meta=%s/%d", preDump.msg.hash, len(preDump.msg.kvs), preDump.meta.hash, len(preDump.meta.kvs))
 	}
-	r.Logf("pre-state msg=%s/%d meta=%s/%d", preDump.msg.hash, len(preDump.msg.kvs), preDump.meta.hash, len(preDump.meta.kvs))
 
 	// ---- reference: fault-free restore -------------------------------------------
 	refGate := cloneDisk(pre.mem)
@@ -313,6 +323,29 @@ func runC11(t *testing.T, r *simkit.Run) {
 	}
 	if sc != scNone && !fired {
 		r.Nontrivial = false
+	}
+	if r.Failed() || r.InfraErr != "" {
+		return
+	}
+	// ---- the restored store continues exactly at the watermark --------------------------
+	h.checkContinuation(ref)
+	if sc != scNone || r.Failed() || r.InfraErr != "" {
+		return
+	}
+	// ---- discarding the restored (and continued) partition leaves the pre-import state ----
+	st, err := discardPartition(ref, h.slotA, h.route, h.page)
+	if err != nil {
+		r.FailSig("stream.cleanup_incomplete", "cleanup-failed", fmt.Sprintf("discarding a completely restored partition failed: %v", err), nil)
+		return
+	}
+	r.Logf("discarded restored partition channels=%d pages=%d", st.channels, st.pages)
+	for _, c := range h.chansOf(h.slotA) {
+		if c.CutHW-c.Trimmed > 1024 {
+			r.Probe("cleanup.multi_page")
+		}
+	}
+	if h.sameAs(ref, preDump, "stream.cleanup_incomplete", "full", "after discarding a completely restored partition the target differs from its pre-import state") {
+		r.Probe("cleanup.complete")
 	}
 }
 
